@@ -184,6 +184,7 @@ def run(P, R, tier):
             R.anchor_missing("C14.switch", "%s now handles kind %s listed as an exception" % (drv["function"], k))
 
     consume_rules(P, R, K)
+    range_rule(P, R, K)
     cell_rule(P, R, K)
     copy_rules(P, R, K, tab)
     component_rules(P, R, K, tab)
@@ -244,6 +245,61 @@ def cell_rule(P, R, K):
         else:
             R.violation("C14.cell", inst, "run_as_cells skips a cell when %s is missing, but set_advection takes the cell's solution from %s: a cell defined only by %s is "
                         "silently skipped by RUN_CELLS" % (sorted(tested), sorted(sources), sorted(sources - tested) or "?"), file=f["file"], line=guard[1], function=f["q"])
+
+
+def range_rule(P, R, K):
+    """`KIND n-m` is stored as entry n with a range end m and expanded by Rxn_copies(store, n, m).  The expansion is driven from
+    code that runs again later (tidy_model on every new definition of the kind, the initial-equilibration drivers), so the
+    source entry's range must be collapsed when it is expanded - by Set_n_user_end(n) on the source or by the x<kind>_save(n)
+    that rewrites entry n - otherwise a later pass copies n over n+1..m again: deleted copies reappear, modified ones are
+    overwritten."""
+    R.rule("C14.range", "a range expansion Rxn_copies(store, n, end-of-source) collapses the source's range (Set_n_user_end(n) or x<kind>_save(n))", minimum=6)
+    for key, f in sorted(P.functions.items()):
+        if not f["q"].startswith("Phreeqc::"):
+            continue
+        calls = [c for c in T.calls(f["body"]) if T.callee_name(c) == "Rxn_copies" and len(c[4]) == 3]
+        if not calls:
+            continue
+        # locals defined from <x>.Get_n_user_end()
+        ends = {}
+        for x in T.walk(f["body"]):
+            src = None
+            if x[0] == "Bin" and x[2] == "=" and T.strip_casts(x[3])[0] == "Ref":
+                tgt, src = T.strip_casts(x[3])[3], x[4]
+            elif x[0] == "Decl":
+                for d in x[2]:
+                    if T.is_node(d[2]):
+                        r = T.strip_casts(d[2])
+                        if r[0] == "Call" and T.callee_name(r) == "Get_n_user_end" and T.is_node(r[3]):
+                            ends[d[0]] = T.text(r[3])
+                continue
+            if src is not None:
+                r = T.strip_casts(src)
+                if r[0] == "Call" and T.callee_name(r) == "Get_n_user_end" and T.is_node(r[3]):
+                    ends[tgt] = T.text(r[3])
+        for c in calls:
+            e = T.strip_casts(c[4][2])
+            if not (e[0] == "Ref" and e[2] == "local" and e[3] in ends):
+                continue          # range taken from a save request or a just-read temporary, not from a stored source entry
+            owner = ends[e[3]]
+            store = T.text(c[4][0]).split(".")[-1]
+            kinds = K.of_name(store)
+            nkey = T.text(c[4][1])
+            inst = "%s:%s@%d" % (f["q"].split("::")[-1], store, c[1])
+            collapse = [y for y in T.calls(f["body"]) if T.callee_name(y) == "Set_n_user_end" and T.is_node(y[3]) and T.text(y[3]) == owner and len(y[4]) == 1 and T.text(y[4][0]) == nkey]
+            saved = [y for y in T.calls(f["body"]) if re_save(T.callee_name(y)) and K.of_name(T.callee_name(y)) == kinds and y[4] and T.text(y[4][0]) == nkey and y[1] < c[1]]
+            if collapse:
+                R.ok("C14.range", inst, "%s.Set_n_user_end(%s)" % (owner, nkey))
+            elif saved:
+                R.ok("C14.range", inst, "%s(%s) rewrites the source as a single entry" % (T.callee_name(saved[0]), nkey))
+            else:
+                R.violation("C14.range", inst, "the range of %s is expanded with Rxn_copies but the source entry keeps its range end: every later pass copies entry %s over the "
+                            "rest of the range again (deleted entries reappear, modified ones are overwritten)" % (owner, nkey), file=f["file"], line=c[1], function=f["q"])
+
+
+def re_save(name):
+    import re
+    return bool(re.match(r"^x[a-z_]+_save$", name or ""))
 
 
 def flatten_and(n):
